@@ -45,6 +45,9 @@ Inductive op :=
 | Resume (t : N)
 | Tick (g : N)
 | Run (g : N) (k : nat)
+| Burst (mode : N) (k n : nat)     (* k StartHeartbeat calls without any parking in between (mode 0: back to back from
+                                      one goroutine on one P, mode 1: k goroutines released together), then the
+                                      streams run freely until n refreshes happened *)
 | Sub                              (* the peer subscribes to the DeviceDiagnosis feature *)
 | Unsub
 | Read.                            (* DataCopy(heartbeat) *)
@@ -66,6 +69,11 @@ Inductive obs :=
 | Exited                           (* the stream saw its stop channel closed and returned *)
 | Timing (p : Z) (late : N)        (* measured period (ms) and number of gaps above the timeout *)
 | Panic (site : N)                 (* 1 close of closed channel, 2 nil feature in a refresh, 3 close of nil channel *)
+| Bursted (g live : N) (fast : bool) (c nn : N) (mono : bool)
+                                   (* after the burst: the stream left over is g; live = distinct streams that
+                                      refreshed during the free run; fast = the n refreshes came quicker than one
+                                      stream can produce them; c = last counter; nn = notifies to the peer for
+                                      these refreshes; mono = the counters increased strictly *)
 | SubR (b : bool)                  (* the peer is subscribed now *)
 | Data (c : option N).             (* counter in the stored heartbeat data *)
 
@@ -258,6 +266,32 @@ Fixpoint run_ticks (k : nat) (s : st) (g : N) : st * list obs :=
 
 Definition max_run : nat := 12.
 
+(* k StartHeartbeat calls one after the other with nobody parked: each stops the running stream and starts a new one *)
+Definition restart1 (s : st) : st :=
+  do_make (match cur s with Some g => if running s then do_close s g else s | None => s end).
+
+Fixpoint restart (k : nat) (s : st) : st :=
+  match k with O => s | S k' => restart k' (restart1 s) end.
+
+Fixpoint refresh_n (n : nat) (s : st) : st :=
+  match n with O => s | S n' => refresh_n n' (fst (do_refresh s)) end.
+
+Definition burst_ok (k n : nat) : bool := Nat.leb 2 k && Nat.leb k 8 && Nat.leb 2 n && Nat.leb n max_run.
+
+Definition step_burst (s : st) (k n : nat) : st * list obs :=
+  if burst_ok k n then
+    match hold s with
+    | Some _ => (s, [NotRunnable])               (* stopMux is held by a parked goroutine: the starts would block *)
+    | None =>
+        if feature s then
+          let s1 := restart k s in
+          let s2 := refresh_n n s1 in
+          (s2, [Bursted (match cur s1 with Some g => g | None => 0%N end) 1 false (counter s2)
+                        (N.of_nat n * nnotify s) true])
+        else (s, [ErrNoFeature])
+    end
+  else (s, [NotRunnable]).
+
 Definition set_conf (s : st) (t : Z) : st :=
   {| conf := true; tmo := t; cur := cur s; closed := closed s; nextg := nextg s; streams := streams s;
      counter := counter s; data := data s; feature := feature s; subs := subs s; removed := removed s;
@@ -275,6 +309,7 @@ Definition step (s : st) (o : op) : st * list obs :=
       | Resume t => step_resume s t
       | Tick g => step_tick s g
       | Run g k => if Nat.leb 2 k && Nat.leb k max_run then run_ticks k s g else (s, [NotRunnable])
+      | Burst _ k n => step_burst s k n
       | Sub => let b := subs s || negb (removed s) in (set_subs s b, [SubR b])
       | Unsub => let b := subs s && removed s in (set_subs s b, [SubR b])
       | Read => (s, [Data (data s)])
@@ -347,7 +382,7 @@ Definition step_pinned (ps : pst) (o : op) : pst * list obs :=
         if feature s then let '(s1, o1) := do_refresh s in ({| p_s := s1; p_thr := thr |}, [o1])
         else ({| p_s := set_streams s (remove_g g (streams s)); p_thr := thr |}, [Panic 2])
       else ({| p_s := s; p_thr := thr |}, [NotRunnable])
-  | Run _ _ => ({| p_s := s; p_thr := thr |}, [NotRunnable])
+  | Run _ _ | Burst _ _ _ => ({| p_s := s; p_thr := thr |}, [NotRunnable])
   | Sub => let b := subs s || negb (removed s) in ({| p_s := set_subs s b; p_thr := thr |}, [SubR b])
   | Unsub => let b := subs s && removed s in ({| p_s := set_subs s b; p_thr := thr |}, [SubR b])
   | Read => ({| p_s := s; p_thr := thr |}, [Data (data s)])
@@ -370,9 +405,10 @@ Fixpoint run_pinned (s : pst) (ops : list op) : pst * list (op * list obs) :=
         3 g        Tick g
         4 g k      Run g k
         5 Sub, 6 Unsub, 7 Read, 7 1 Read after more than one period of real time
+        8 m k n    Burst m k n;   0 t w = Setup with a peer connection that takes w ms per write
    obs: 0 Ready, 1 Busy, 2 Blocked, 3 NotRunnable, 4 h Parked, 5 Done, 6 b RetB, 7 ErrNoFeature,
         8 t Acquired, 9 g Started, 10 c n fresh tmo Refreshed, 11 Exited, 12 p late Timing,
-        13 site Panic, 14 b SubR, 15 [c] Data *)
+        13 site Panic, 14 b SubR, 15 [c] Data, 16 g live fast c nn mono Bursted *)
 Definition parse_call (z : Z) : option call :=
   match z with
   | 0 => Some CIsRunning | 1 => Some CStop | 2 => Some CStart | 3 => Some CAddFn | 4 => Some CRemoveEntity
@@ -382,10 +418,12 @@ Definition parse_call (z : Z) : option call :=
 Definition parse_op (l : list Z) : option op :=
   match l with
   | [0; t] => Some (Setup t)
+  | [0; t; _] => Some (Setup t)    (* the peer's connection takes that many ms per write (runtime only) *)
   | [1; t; c] => match parse_call c with Some c => Some (Call (Nz t) c) | None => None end
   | [2; t] => Some (Resume (Nz t))
   | [3; g] => Some (Tick (Nz g))
   | [4; g; k] => Some (Run (Nz g) (Z.to_nat k))
+  | [8; m; k; n] => Some (Burst (Nz m) (Z.to_nat k) (Z.to_nat n))
   | [5] => Some Sub
   | [6] => Some Unsub
   | [7] => Some Read
@@ -410,6 +448,7 @@ Definition print_obs (o : obs) : list Z :=
   | Timing p l => [12; p; Zn l]
   | Panic k => [13; Zn k]
   | SubR b => [14; Zb b]
+  | Bursted g l f c nn m => [16; Zn g; Zn l; Zb f; Zn c; Zn nn; Zb m]
   | Data None => [15]
   | Data (Some c) => [15; Zn c]
   end.
@@ -431,6 +470,7 @@ Definition parse_obs (l : list Z) : option obs :=
   | [12; p; l] => Some (Timing p (Nz l))
   | [13; k] => Some (Panic (Nz k))
   | [14; b] => Some (SubR (bZ b))
+  | [16; g; l; f; c; nn; m] => Some (Bursted (Nz g) (Nz l) (bZ f) (Nz c) (Nz nn) (bZ m))
   | [15] => Some (Data None)
   | [15; c] => Some (Data (Some (Nz c)))
   | _ => None
